@@ -6,7 +6,7 @@ from models import refprint
 ID = "C16"
 RULE = (
     "case = (print template assembled from <=3 (thorough 4) chunks over 10 text chunks and 6 (thorough 12) reference forms, subject only "
-    "to the constraints the reference notation itself imposes; file; qualifier form plain | onmatch | once); run as the real csvpath "
+    "to the constraints the reference notation itself imposes; file; qualifier form plain | onmatch | once, default or named printer stream); run as the real csvpath "
     "'@x = #a  @d.k = #b  push(\"s\", #a)  print(\"<template>\")' (+ a filter for onmatch) and compared per executed line with "
     "models/refprint.py: one printer entry per execution, every reference replaced by the current value, every other character "
     "unchanged, '..' directly after a reference = one literal dot; non-trivial = the template has a reference followed by text or by "
@@ -67,6 +67,8 @@ def cases(tier, seed):
             if len(t) <= 2:
                 yield {"t": t, "file": 2, "form": "onmatch"}
                 yield {"t": t, "file": 2, "form": "once"}
+                yield {"t": t, "file": 2, "form": "named"}
+                yield {"t": t, "file": 2, "form": "once_named"}
     else:
         seen = set()
         for t in itertools.chain(templates(4, REFS6), templates(3, REFS12)):
@@ -75,7 +77,7 @@ def cases(tier, seed):
                 continue
             seen.add(k)
             for f in range(3):
-                for form in ("plain", "onmatch", "once"):
+                for form in ("plain", "onmatch", "once", "named", "once_named"):
                     if len(t) == 4 and (f != 0 or form != "plain"):
                         continue
                     yield {"t": t, "file": f, "form": form}
@@ -92,9 +94,10 @@ def run_case(case):
     rows = FILES[fi]
     path = sandbox.write_csv(rows)
     tmpl = refprint.render(t)
-    q = {"plain": "", "onmatch": ".onmatch", "once": ".once"}[form]
+    q = {"plain": "", "onmatch": ".onmatch", "once": ".once", "named": "", "once_named": ".once"}[form]
     filt = ' #a == "k"' if form == "onmatch" else ""
-    text = f'~ title: T 1 ~ ${path}[*][ @x = #a @d.k = #b push("s", #a) print{q}("{tmpl}"){filt} ]'
+    stream = ', "audit"' if form in ("named", "once_named") else ""
+    text = f'~ title: T 1 ~ ${path}[*][ @x = #a @d.k = #b push("s", #a) print{q}("{tmpl}"{stream}){filt} ]'
     o = run.run_csvpath(text)
     # model
     exp = []
@@ -109,7 +112,7 @@ def run_case(case):
         stack.append(x)
         if form == "onmatch" and x != "k":
             continue
-        if form == "once" and exp:
+        if form in ("once", "once_named") and exp:
             continue
 
         def variables(name, sub, x=x, d=d, stack=list(stack)):
@@ -132,7 +135,7 @@ def run_case(case):
             return {"line_number": i, "count_lines": i + 1, "count_scans": scans, "total_lines": nrec}[name]
 
         exp.append(refprint.expand(t, {"variables": variables, "headers": headers, "metadata": metadata, "csvpath": csvpath}))
-    cstr = f'print{q}("{tmpl}") file={fi}'
+    cstr = f'print{q}("{tmpl}"{stream}) file={fi}'
     viol = []
 
     shape0 = "".join("R" if c[0] == "r" else "t" for c in t)
